@@ -21,6 +21,7 @@ type xclause struct {
 	bound                bool // constant predicate written "x"@[lo,hi]
 	lo, hi               int  // indexes into bounds, -1 = open side
 	okc                  int  // anchor index of a constant temporal predicate object (c.ok == 4)
+	oAtBind              string // constant predicate object with an anchor binding: "x"@[?t]
 }
 
 // instants used as window and global bounds, around the two data anchors:
@@ -105,7 +106,9 @@ func (c xclause) text() string {
 		p += " at ?" + c.pAt
 	}
 	o := "?" + c.o.bind
-	if c.o.bind == "" {
+	if c.oAtBind != "" {
+		o = "\"" + string([]byte{c.o.cb}) + "\"@[?" + c.oAtBind + "]"
+	} else if c.o.bind == "" {
 		switch c.ok {
 		case 0:
 			o = "/u<" + string([]byte{c.o.cb}) + ">"
@@ -201,7 +204,13 @@ func (c xclause) xmatches(d *dspec, e env, g window) bool {
 		return false
 	}
 	// object
-	if c.o.bind == "" {
+	if c.oAtBind != "" {
+		if d.ok != 4 {
+			return false
+		}
+		r = verif.And(r, d.ob == c.o.cb)
+		bind(c.oAtBind, val{kind: 3, pa: d.oa})
+	} else if c.o.bind == "" {
 		if c.ok != d.ok || (c.ok == 4 && c.okc != d.oa) {
 			return false
 		}
@@ -245,7 +254,7 @@ func xbindingsOf(cs []xclause) []string {
 		}
 	}
 	for _, c := range cs {
-		add(c.s.bind, c.sAs, c.sID, c.sType, c.p.bind, c.at, c.pAs, c.pID, c.pAt, c.o.bind, c.oAs, c.oID, c.oType, c.oAt)
+		add(c.s.bind, c.sAs, c.sID, c.sType, c.p.bind, c.at, c.pAs, c.pID, c.pAt, c.o.bind, c.oAtBind, c.oAs, c.oID, c.oType, c.oAt)
 	}
 	return out
 }
@@ -448,6 +457,12 @@ var c03XShapes = []xshape{
 	{cs: []xclause{{qclause: qclause{s: cA, p: cA, o: cA}, sAs: "x", oAs: "y", lo: -1, hi: -1}}, okinds: []int{0}, graphs: 2},
 	// 28: an existence test guarding a further clause, two FROM graphs
 	{cs: []xclause{{qclause: qclause{s: cA, p: cA, o: cA}, sAs: "x", lo: -1, hi: -1}, {qclause: qclause{s: pos{bind: "x"}, p: pos{cb: 'b'}, o: bZ}, lo: -1, hi: -1}}, okinds: []int{0}, graphs: 2},
+	// 29: a predicate in object position with an anchor binding
+	{cs: []xclause{{qclause: qclause{s: bS, p: cA, o: cA}, oAtBind: "t", lo: -1, hi: -1}}, okinds: []int{0, 3, 4}},
+	// 30: ... whose anchor is bound by an earlier clause (time join between a predicate and an object)
+	{cs: []xclause{{qclause: qclause{s: bS, p: cA, o: bO, at: "t"}, lo: -1, hi: -1}, {qclause: qclause{s: bZ, p: pos{cb: 'b'}, o: cA}, oAtBind: "t", lo: -1, hi: -1}}, okinds: []int{0, 4}, temporal: true},
+	// 31: ... and the other way round
+	{cs: []xclause{{qclause: qclause{s: bZ, p: pos{cb: 'b'}, o: cA}, oAtBind: "t", lo: -1, hi: -1}, {qclause: qclause{s: bS, p: cA, o: bO, at: "t"}, lo: -1, hi: -1}}, okinds: []int{0, 4}, temporal: true},
 }
 
 // newStoreGraphs creates a store with the named graphs and distributes the
